@@ -12,6 +12,8 @@ EXTENDS Intervals, SequencesExt, Json
 CONSTANT Fams        \* subset of {"s1", "pp", "r1", "r2", "rc"}
 CONSTANT NR          \* r2: grid positions even integers of -2NR..2NR
 CONSTANT AIdxS1, AIdxRc, BIdxRc   \* index sets (first operands; rc also second operands); {} = all
+CONSTANT XtSeed      \* seed of the off-grid endpoint offsets of family "xt" (passed through to the replay)
+XtOffsets == 3       \* offset patterns per interval and nudge
 CONSTANT RcMlK, RcMgK  \* margins tried for s2.Rect expansion (lat steps, lng steps), each + 100
 RcMl == {k - 100 : k \in RcMlK}
 RcMg == {k - 100 : k \in RcMgK}
@@ -39,6 +41,7 @@ NRoot == 16
 Unaries == UNION {
             IF "s1" \in Fams THEN {<<"s1", I>> : I \in Pick(SIntervals, AIdxS1)} ELSE {},
             IF "pp" \in Fams THEN {<<"pp", a>> : a \in Pos} ELSE {},
+            IF "xt" \in Fams THEN {<<"xt", I>> : I \in SIntervals \ {SEmpty, SFull}} ELSE {},
             IF "r1" \in Fams THEN {<<"r1", I>> : I \in RIntervals} ELSE {},
             IF "r2" \in Fams THEN {<<"r2", R>> : R \in R2Rects} ELSE {},
             \* the empty and the full rectangle are always first operands
@@ -50,6 +53,7 @@ Next == \/ /\ Len(t) = 4
         \/ /\ Len(t) = 2
            /\ t' \in CASE t[1] = "s1" -> {<<"s1", t[2], J>> : J \in SIntervals}
                     [] t[1] = "pp" -> {<<"pp", t[2], b>> : b \in Pos}
+                    [] t[1] = "xt" -> {<<"xt", t[2], <<nu, off>>>> : nu \in -3..3, off \in 1..XtOffsets}
                     [] t[1] = "r1" -> {<<"r1", t[2], J>> : J \in RIntervals}
                     [] t[1] = "r2" -> {<<"r2", t[2], S>> : S \in R2Rects}
                     [] t[1] = "rc" -> {<<"rc", t[2], S>> : S \in Pick(RcRects, BIdxRc)}
@@ -64,6 +68,16 @@ QSeq(f(_)) == [i \in 1..(4*M) |-> f(i - 2*M)]
 (***************************************************************************)
 (* model-level laws: s1                                                    *)
 (***************************************************************************)
+(***************************************************************************)
+(* family "xt": expansion that reaches exactly all the way round, and      *)
+(* shrinking that reaches exactly the centre.  The model interval is       *)
+(* embedded with arbitrary off-grid endpoint offsets (|offset| < 0.3 step, *)
+(* class preserved) and the margin is computed from the float length,      *)
+(* nudged by nu ulps: the exact-tie class of SExpanded under rounding.     *)
+(* Margins in half-steps: grow by 2M - SLen, shrink by SLen.               *)
+(***************************************************************************)
+XtGrow(I) == 2*M - SLen(I)
+XtShrink(I) == SLen(I)
 Dilate(S, r) == {q \in Q : \E x \in S : CircDist(q, x) <= r}
 Erode(S, r) == {q \in Q : \A x \in Q : CircDist(q, x) <= r => x \in S}
 ArcFrom(lo, hi) == {q \in Q : (q - 2*lo + 8*M) % (4*M) <= (2*hi - 2*lo + 8*M) % (4*M)}
@@ -119,6 +133,15 @@ S1Binary == F = "s1" /\ Bin =>
                                 ELSE (B[1] >= A[1] \/ B[2] <= A[2]) /\ A # SEmpty)
           ELSE IF SInverted(B) THEN A = SFull \/ B = SEmpty
           ELSE B[1] >= A[1] /\ B[2] <= A[2])
+
+\* growing by exactly the missing half-length covers the circle; shrinking by exactly the
+\* half-length leaves the centre only: under a nudge of a few ulps the result is the full
+\* interval / an interval missing a sliver, resp. empty / a sliver around the centre
+XTLaws == F = "xt" /\ Un =>
+    /\ Dilate(SSet(A), XtGrow(A)) = Q
+    /\ (XtGrow(A) > 0 => Dilate(SSet(A), XtGrow(A) - 1) # Q)
+    /\ (SLen(A) > 0 => Erode(SSet(A), XtShrink(A)) = {SCenter(A)})
+    /\ (SLen(A) > 0 => Erode(SSet(A), XtShrink(A) + 1) = {})
 
 PPLaws == F = "pp" /\ Bin =>
     /\ \A R \in SFromPointPair(A, B) :
@@ -288,6 +311,9 @@ Emit ==
         CASE F = "root" -> [op |-> "c19nop"]
           [] F = "s1" /\ Un -> CaseS1U [] F = "s1" /\ Bin -> CaseS1B
           [] F = "pp" /\ Un -> [op |-> "c19nop"] [] F = "pp" /\ Bin -> CasePP
+          [] F = "xt" /\ Un -> [op |-> "c19nop"]
+          [] F = "xt" /\ Bin -> [op |-> "c19xt", M |-> M, i |-> A, nu |-> B[1], off |-> B[2], seed |-> XtSeed,
+                                 growq |-> XtGrow(A), shrinkq |-> XtShrink(A), center |-> SCenter(A)]
           [] F = "r1" /\ Un -> CaseR1U [] F = "r1" /\ Bin -> CaseR1B
           [] F = "r2" /\ Un -> CaseR2U [] F = "r2" /\ Bin -> CaseR2B
           [] F = "rc" /\ Un -> CaseRcU [] F = "rc" /\ Bin -> CaseRcB)>>)
